@@ -114,11 +114,16 @@ void MutateMesh(Tape& t, Mesh& g, std::ostream& d) {
 // Revolve ("non-overlapping polygons"); for that class the result's topology is not judged
 // (garbage in, garbage out), only memory safety, termination, exceptions and error stickiness.
 bool gJudgeTopology = true;
+// Known finding F46: a subnormal (denormal) geometric argument, e.g. Scale({1, 4.9e-324, 1}), flattens a solid to a
+// thickness at which reciprocals overflow; property interpolation in a later Boolean then yields NaN
+// property values (0 * inf).  Only that signature, only when such an argument was generated.
+bool gSubnormalArg = false;
 struct Sticky {
   Outcome& o;
   // result of an op on `src`; err = the status that must be preserved as "an error"
   bool check(const Manifold& src, const Manifold& r, const char* op) {
     oracle::TopoReport tr = oracle::CheckManifold(r);
+    if (!tr.ok && gSubnormalArg && tr.sig == "topo:nonfinite") { o.known("F46-subnormal-argument-nan", "malformed:topo:nonfinite-subnormal-argument", std::string("after ") + op + ": " + tr.msg); return false; }
     if (!tr.ok && gJudgeTopology) { o.fail(std::string("malformed:") + tr.sig, std::string("after ") + op + ": " + tr.msg); return false; }
     if (src.Status() != Manifold::Error::NoError && r.Status() == Manifold::Error::NoError) {
       o.fail("malformed:error-not-sticky", verif::fmt("%s of a Manifold with Status %d returned NoError", op, int(src.Status())));
@@ -242,7 +247,7 @@ void ModeArgs(Tape& t, Outcome& o) {
   Manifold m;
   Manifold base = Manifold::Cube(vec3(1.0), true);
   d << "args" << k << "(";
-  auto D = [&]() { double v = SpecialDouble(t); d << v << ","; return v; };
+  auto D = [&]() { double v = SpecialDouble(t); d << v << ","; if (std::fpclassify(v) == FP_SUBNORMAL) gSubnormalArg = true; return v; };
   auto Iv = [&]() { int v = SpecialInt(t); d << v << ","; return v; };
   auto smallSeg = [&]() { int v = t.chance(200) ? t.range(-2, 64) : SpecialInt(t); if (v > 256) { v = 256; } d << v << ","; return v; };
   switch (k) {
@@ -342,6 +347,7 @@ void ModeArgs(Tape& t, Outcome& o) {
   }
   d << ")";
   oracle::TopoReport tr = oracle::CheckManifold(m);
+  if (!tr.ok && gSubnormalArg && tr.sig == "topo:nonfinite") { o.known("F46-subnormal-argument-nan", "malformed:topo:nonfinite-subnormal-argument", tr.msg); return; }
   if (!tr.ok && gJudgeTopology) { o.fail("malformed:" + tr.sig, tr.msg); return; }
   o.cls(m.Status() == Manifold::Error::NoError ? "args-accepted" : "args-rejected");
   o.nontrivial = true;
@@ -431,6 +437,7 @@ void ModePoints(Tape& t, Outcome& o) {
 void Body(Tape& t, Outcome& o) {
   Quality::ResetToDefaults();
   gJudgeTopology = true;
+  gSubnormalArg = false;
   int mode = t.range(0, 9);
   if (mode <= 5) ModeMesh(t, o);
   else if (mode <= 7) ModeArgs(t, o);
